@@ -7,17 +7,20 @@ Rec == ndJsonDeserialize(IOEnv.TRACE)
 SpecOut(r, inp) ==
   IF "blob" \in DOMAIN inp
   THEN LET d == Decode(inp.blob, r.env, r.types) IN
-       IF d.ok THEN [ok |-> TRUE, v |-> d.v] ELSE [ok |-> FALSE]
+       IF d.ok THEN [ok |-> TRUE, v |-> d.v] ELSE IF IsBomb(d) THEN [ok |-> FALSE, unjudged |-> TRUE] ELSE [ok |-> FALSE]
   ELSE IF "ok" \in DOMAIN inp.text THEN [ok |-> TRUE, v |-> inp.text.ok] ELSE [ok |-> FALSE]
+\* messages beyond the specification's fuel (two assertions with 1000-element vectors) are not judged
+Unj(x) == "unjudged" \in DOMAIN x
 Verdict(r) ==
   LET L == SpecOut(r, r.left) IN
-  IF r.hasright = 0 THEN (IF r.pass = 1 THEN L.ok ELSE ~L.ok)
+  IF Unj(L) \/ (r.hasright = 1 /\ Unj(SpecOut(r, r.right))) THEN TRUE
+  ELSE IF r.hasright = 0 THEN (IF r.pass = 1 THEN L.ok ELSE ~L.ok)
   ELSE LET R == SpecOut(r, r.right) IN
        L.ok /\ R.ok /\ (IF r.pass = 1 THEN L.v = R.v ELSE L.v # R.v)
 Agree(r, inp) ==
   IF "blob" \notin DOMAIN inp THEN TRUE
   ELSE LET s == SpecOut(r, inp) IN
-       IF s.ok THEN ("ok" \in DOMAIN inp.real /\ inp.real.ok = s.v) ELSE "err" \in DOMAIN inp.real
+       IF Unj(s) THEN TRUE ELSE IF s.ok THEN ("ok" \in DOMAIN inp.real /\ inp.real.ok = s.v) ELSE "err" \in DOMAIN inp.real
 VARIABLES l
 Init == l = 1
 Bad(tag) == PrintT(<<"MISMATCH", l, tag>>)
